@@ -77,6 +77,12 @@ func interactionPrograms() []string {
 			out = append(out, fmt.Sprintf(`m = {"k": 7, "f": x => x * 3}; fs = [x => x + 1, x => x * 2]; for k = 2 {r = catch(%s); if r.err {println("E")} else {println(r.value)}}`, body))
 		}
 	}
+	// (D) left-to-right evaluation when a later element modifies what an earlier one read (outer variable / parameter / loop variable)
+	for _, e := range []string{`[v, v++]`, `[v++, v]`, `pair(v, v++)`, `pair(++v, v)`, `[(if true {v} else {0}), v = v + 5, v]`, `{"a": v, "b": v++}`, `v + (v = 10)`, `[v, set(), v]`, `pair(v, set())`, `[a[0], a = [9], a[0]]`} {
+		out = append(out, fmt.Sprintf(`pair = func(x, y) {[x, y]}; v = 1; a = [1, 2]; set = func() {v = 50; a = [7]; v}; f = func() {%s}; println(f(), v)`, e))
+		out = append(out, fmt.Sprintf(`pair = func(x, y) {[x, y]}; a = [1, 2]; f = func(v) {set = func() {v = 50; v}; %s}; println(f(1))`, e))
+		out = append(out, fmt.Sprintf(`pair = func(x, y) {[x, y]}; v = 1; a = [1, 2]; set = func() {v = 50; a = [7]; v}; println(%s, v)`, e))
+	}
 	// containers reached through references
 	for _, a := range []string{"x[0] = 5", `x.k = 5`, "del(x[0])", "x = x + 1", "x = x + x", "del(x)"} {
 		for _, init := range []string{"[1, 2, 3]", `{"k": 1, 0: 2}`, "1:12", `{1: 1, 2: 2, 3: 3, 4: 4, 5: 5}`} {
